@@ -139,6 +139,31 @@ func propSpecs() map[string]*PropSpec {
 		Stubs:   []string{tokStub},
 		Assume:  []string{"independent SQL lexers (standard and ClickHouse quoting) and statement parser in harness/h/sqllex.go, sqlparse.go"},
 	})
+	c04 := func(maxM int64, extra int64, extraPos []int64) []RunSpec {
+		var r []RunSpec
+		for m := int64(1); m <= maxM; m++ {
+			for p := int64(0); p < 19; p++ {
+				r = append(r, rs("H_C04", p, m))
+			}
+		}
+		for _, p := range extraPos {
+			for m := maxM + 1; m <= extra; m++ {
+				r = append(r, rs("H_C04", p, m))
+			}
+		}
+		return r
+	}
+	add(&PropSpec{
+		ID: "C04", Title: "literals and names are transmitted as data, never as SQL syntax",
+		Quick:    c04(3, 4, []int64{0, 6}),
+		Thorough: c04(4, 5, []int64{0, 1, 6, 13, 14, 18}),
+		Covers:   []string{"content-admitted", "compiled", "decoded"},
+		Bounds: map[string]string{"quick": "19 content positions (strings in where/in/call/let/render value; backtick names as table, join table, column, project/extend/summarize alias, as name, chart type, render property, qualified part; unquoted identifier; number; implicit column name) x every content of <= 3 bytes (full byte range for quoted kinds) admitted by the real lexer inside that one token; <= 4 bytes at two positions",
+			"thorough": "<= 4 bytes everywhere, <= 5 at six positions"},
+		Outside: []string{"contents longer than the bound (the emitters are byte-wise loops without cross-byte state; argued, not part of the bounded claim)", "decoding under standard-SQL rules of values containing backslashes (structure is required under both lexers, value fidelity under ClickHouse rules)", "numeric value equality between the PQL spelling and its normalised form beyond C09's hex/decimal check"},
+		Stubs:   []string{"nothing stubbed: real Scan, Parse, Compile on symbolic bytes"},
+		Assume:  []string{"two independent SQL lexers (harness/h/sqllex.go); ClickHouse backslash-escape rules as transcribed there"},
+	})
 	seeds13 := func(n int64) []RunSpec {
 		var r []RunSpec
 		for i := int64(0); i < 20; i++ {
